@@ -281,6 +281,64 @@ def _dedupe(xs):
     return out
 
 
+_PREDS = {
+    'eq': lambda a, b: ('eq', a, b), 'ne': lambda a, b: ('ne', a, b),
+    'ult': lambda a, b: ('ult', a, b), 'ule': lambda a, b: ('ule', a, b),
+    'ugt': lambda a, b: ('ult', b, a), 'uge': lambda a, b: ('ule', b, a),
+    'slt': lambda a, b: ('slt', a, b), 'sle': lambda a, b: ('sle', a, b),
+    'sgt': lambda a, b: ('slt', b, a), 'sge': lambda a, b: ('sle', b, a),
+}
+
+
+_ORIGIN = {}     # atom -> the un-substituted operands it was built from (for the tracking decision)
+
+
+def path_atoms(fn, ref, truth, s, depth=0):
+    """atoms known when i1 value `ref` equals `truth` on *this path* (phis resolved through the path's
+    bindings).  Returns a list of atoms, [] if nothing can be said, or None if the path is infeasible."""
+    ref = s.lookup(_k(strip_bitcasts(fn, ref)))
+    c = const_int(ref)
+    if c is not None:
+        return [] if bool(c) == truth else None
+    if depth > 8:
+        return []
+    ins = fn.get(ref) if isinstance(ref, str) else None
+    if ins is None:
+        return []
+    if ins.op == 'icmp':
+        a, b = ins.o
+        bz = const_int(b)
+        ai = fn.get(a) if isinstance(a, str) else None
+        if bz == 0 and ins.pred in ('ne', 'eq') and ai is not None and ai.op == 'zext' and ai.x.get('sbits') == 1:
+            return path_atoms(fn, ai.o[0], truth if ins.pred == 'ne' else (not truth), s, depth + 1)
+        if ins.pred not in _PREDS:
+            return []
+        a0, b0 = _k(strip_bitcasts(fn, a)), _k(strip_bitcasts(fn, b))
+        a = s.lookup(a0)
+        b = s.lookup(b0)
+        at = _PREDS[ins.pred](a, b)
+        at = at if truth else negate(at)
+        _ORIGIN[at] = (a0, b0)
+        return [at]
+    if ins.op == 'xor' and const_int(ins.o[1]) == 1:
+        return path_atoms(fn, ins.o[0], not truth, s, depth + 1)
+    if (ins.op == 'and' and truth) or (ins.op == 'or' and not truth):
+        a1 = path_atoms(fn, ins.o[0], truth, s, depth + 1)
+        a2 = path_atoms(fn, ins.o[1], truth, s, depth + 1)
+        if a1 is None or a2 is None:
+            return None
+        return a1 + a2
+    if ins.op == 'trunc' and ins.ty == 'i1':
+        return [('ne' if truth else 'eq', s.lookup(_k(ins.o[0])), '#0')]
+    if ins.op == 'zext' and ins.x.get('sbits') == 1:
+        return path_atoms(fn, ins.o[0], truth, s, depth + 1)
+    if ins.op == 'phi':
+        # an unbound phi: fall back to the static encoding of && / ||
+        atoms, _ = cond_atoms(fn, ref, truth)
+        return atoms
+    return []
+
+
 def _cross(fn, src, dst, term, s, track):
     known = set(s.known)
     # condition of the edge
@@ -296,8 +354,10 @@ def _cross(fn, src, dst, term, s, track):
                 if bool(cc) != truth:
                     return None
             else:
-                atoms, vias = cond_atoms(fn, c, truth)
-                if not atoms and not vias:
+                atoms = path_atoms(fn, c, truth, s)
+                if atoms is None:
+                    return None
+                if not atoms:
                     # an opaque i1 (e.g. a tracked flag value): remember its truth
                     atoms = [('ne' if truth else 'eq', _k(c), '#0')]
     elif term.op == 'switch':
@@ -326,7 +386,8 @@ def _cross(fn, src, dst, term, s, track):
         k = PathState(None, s.env, frozenset(known)).knows(at)
         if k is False:
             return None
-        if k is None and (track(a) or track(b) or track(a0) or track(b0)):
+        oa, ob = _ORIGIN.get(at, (a0, b0))
+        if k is None and (track(a) or track(b) or track(a0) or track(b0) or track(oa) or track(ob)):
             known.add(at)
     # bind phis of dst (parallel assignment: incoming values are read in the old state)
     env = dict(s.env)
